@@ -1225,8 +1225,36 @@ class PSBTIn:
                                 named_pub.sec().hex()
                             )
                         )
+            elif self.redeem_script:
+                # p2sh whose RedeemScript is checked like the non-witness case
+                if not script_pubkey.is_p2sh():
+                    raise ValueError("RedeemScript defined for non-p2sh ScriptPubKey")
+                if self.redeem_script.hash160() != script_pubkey.commands[1]:
+                    raise ValueError(
+                        "RedeemScript hash160 and ScriptPubKey hash160 do not match"
+                    )
+                if not self.redeem_script.is_p2wsh():
+                    # BIP174: a non-witness input is signed from the previous transaction
+                    if not self.prev_tx:
+                        raise ValueError("Witness UTXO provided for non-witness input")
+                    for sec in self.named_pubs.keys():
+                        if sec not in self.redeem_script.commands:
+                            raise ValueError(f"pubkey is not in RedeemScript {self}")
         else:
             # non-witness input
+            if self.witness_script and script_pubkey and not self.redeem_script:
+                # p2wsh input that comes with its previous transaction only
+                if not script_pubkey.is_p2wsh():
+                    raise ValueError(
+                        "WitnessScript provided for non-p2wsh ScriptPubKey"
+                    )
+                if self.witness_script.sha256() != script_pubkey.commands[1]:
+                    raise ValueError(
+                        "WitnessScript sha256 and output sha256 do not match"
+                    )
+                for sec in self.named_pubs.keys():
+                    if sec not in self.witness_script.commands:
+                        raise ValueError(f"pubkey is not in WitnessScript: {self}")
             if self.redeem_script:
                 if not script_pubkey.is_p2sh():
                     raise ValueError("RedeemScript defined for non-p2sh ScriptPubKey")
